@@ -299,9 +299,25 @@ func runLexer(def lexer.Definition, names map[lexer.TokenType]string, in string,
 			finish()
 			return
 		}
+		// a second lexer of the same definition, over a rotation of the input, advances in lock step: lexers of one definition
+		// share nothing that lexing changes, so the stream judged below is the same with and without it
+		var shadow lexer.Lexer
+		if len(in) > 1 {
+			rot := in[len(in)/2:] + in[:len(in)/2]
+			if sd, ok := def.(lexer.StringDefinition); ok {
+				shadow, _ = sd.LexString("shadow.txt", rot)
+			} else {
+				shadow, _ = def.Lex("shadow.txt", strings.NewReader(rot))
+			}
+		}
 		var last lexer.Token
 		status := ""
 		for n := 0; n <= len(in)+1; n++ {
+			if shadow != nil {
+				if st, serr := shadow.Next(); serr != nil || st.EOF() {
+					shadow = nil
+				}
+			}
 			t, err := l.Next()
 			if err != nil {
 				pos, ok := errPos(err)
